@@ -1290,6 +1290,22 @@ where
                 match code {
                     // Query
                     'Q' => {
+                        // A Query while the server is in COPY mode. The server may already have
+                        // ended the COPY with an error we have not read; it then answers the COPY
+                        // and the Query, and we cannot tell whose answer is whose.
+                        if server.in_copy_mode() {
+                            server.mark_bad("query while the server is in COPY mode");
+                            error_response_terminal(
+                                &mut self.write,
+                                "unexpected Query message during COPY",
+                            )
+                            .await?;
+
+                            return Err(Error::ProtocolSyncError(
+                                "Query message during COPY".into(),
+                            ));
+                        }
+
                         if query_router.parses_messages() {
                             // We don't want to parse again if we already parsed it as the initial message
                             let ast = match initial_parsed_ast {
